@@ -41,7 +41,9 @@ var engineSwaps = map[string][]swap{
 	"ardopsim": {
 		{Dir: "transport/ardop", Imports: map[string]string{"net": "verif/sim/shim/net"}},
 	},
-	"dialsim": {},
+	"dialsim": {
+		{Dir: "transport", Imports: map[string]string{"sync": "verif/sim/shim/simsync"}},
+	},
 }
 
 // yieldFiles: library files in which the overlay also puts a call to
@@ -54,6 +56,9 @@ var engineSwaps = map[string][]swap{
 var yieldFiles = map[string][]string{
 	"fbbsim":   {"fbb/secure.go", "fbb/handshake.go", "fbb/b2f.go", "fbb/wl2k.go", "fbb/proposal.go", "fbb/helpers.go", "lzhuf/writer.go", "lzhuf/reader.go", "lzhuf/crc.go"},
 	"codecsim": {"lzhuf/writer.go", "lzhuf/reader.go", "lzhuf/crc.go"},
+	// the registry takes a lock: its package gets sim/shim/simsync for "sync",
+	// which keeps yield points inside critical sections from pausing
+	"dialsim": {"transport/dial.go"},
 }
 
 const yieldImport = "verif/sim/shim/simyield"
